@@ -181,3 +181,15 @@ contract(f"{FSO}::FolderObservation.observe", props=["C09", "C02"],
                   ("remembers_what_it_showed", "implies(not absent(state, self.where) and self.file_system_requires_scan,"
                                                " 'health_status' in self.cached_obs and self.cached_obs['health_status'] == result['health_status'])")],
          modifies=["self.cached_obs"], allocates=True)
+
+# ---- composites (ACL slots, NIC traffic/NMNE trees, folders with files, hosts, links lists, router/firewall ports) ---------------------
+# Their observe()/space pairs build nested dictionaries by comprehension over configured lists; a deductive attempt on
+# ACLObservation.observe (loop invariant over a dict of nine-entry dicts) did not discharge within the budget (z3 timeout on the
+# preservation VC, 4 min), so these are covered by a BOUNDED stand-in on the real classes with the real gymnasium `contains`:
+from pyvc.contracts import native_bounded  # noqa: E402
+native_bounded("C02", "observation-composites", "bounded/obs_composites.py",
+               "the shipped data_manipulation scenario (7 hosts, 1 router, 10 links); one component varied at a time over every enum member, counters 0..12, traffic up to 10x speed, ACL rules from {absent, listed, unlisted} values per field at each of the 10 positions",
+               "exhaustive small-scope enumeration of state dictionaries against the real observation classes: observe() raises nothing and space.contains(obs)")
+native_bounded("C09", "observation-ground-truth", "bounded/obs_truth.py",
+               "same sweep as observation-composites",
+               "selected leaves (node power, service/application state and visible-vs-true health, folder/file health, NIC status, user sessions) compared with the simulator objects themselves after every change")
